@@ -59,7 +59,13 @@ DecodeDomain ==
 \* the branch alphabet: letter, digit, _, space, tab, CR, LF, ; # " $ \ { } x n + - = ! | & . > < :
 \* and a 2-byte and a 4-byte character
 FullAlphabet == {97, 49, 95, 32, 9, 13, 10, 59, 35, 34, 36, 92, 123, 125, 120, 110, 43, 45, 61, 33, 124, 38,
+                 46, 62, 60, 58, 233, 128512,
+                 \* characters that are none of the above classes but close to one: NUL, VT, DEL, NBSP,
+                 \* a non-ASCII digit, a superscript digit, a non-ASCII letter, a line separator
+                 0, 11, 127, 160, 1634, 178, 937, 8232}
+BaseAlphabet == {97, 49, 95, 32, 9, 13, 10, 59, 35, 34, 36, 92, 123, 125, 120, 110, 43, 45, 61, 33, 124, 38,
                  46, 62, 60, 58, 233, 128512}
+EdgeAlphabet == {0, 11, 127, 160, 1634, 178, 937, 8232, 97, 49, 34, 32, 43, 36, 10, 92}
 \* string-literal alphabet (C15)
 StrAlphabet == {34, 36, 92, 123, 125, 120, 110, 114, 97, 52, 65, 233, 8364, 128512, 10}
 =============================================================================
